@@ -11,13 +11,25 @@ Tie (D), every run:
 Each implementation output is compared line by line with
   - the extracted model of the code after the patches in /verif/fixes (the
     model for which the property is PROVED): a difference is a concrete input
-    on which the code departs from the property -> VIOLATION with replay;
+    on which the code departs from the property -> VIOLATION with replay
+    (byte_array: the comparison is on results and variable VALUES - the form
+    std::vector prints - because the unshare patch changes which blocks are
+    shared even where no value differs);
   - std::vector run side by side (byte_array only): likewise;
   - the extracted *selected* model (Model/C20Config.v: the code /repo is
-    believed to have): a difference that is not explained by "the code equals
-    the fixed model here" means the model no longer describes the code ->
-    VIOLATION (tie broken); if the code equals the fixed model the flag is
-    merely stale and a NOTE is printed.
+    believed to have), complete lines (reference counts, alias classes,
+    capacities, leaked marks, live blocks): a difference that is not explained
+    by "the code equals a more-fixed model here" means the model no longer
+    describes the code -> VIOLATION (tie broken); if the code equals the fixed
+    (or fixed-index) model the flag is merely stale and a NOTE is printed.
+Held references (operations SET2 SWAP GETHELD GETHELDC HELDPOP DATAHELDCOPY
+DATAHELDASSIGN CDATAHELD): the harness keeps released storage aside while such
+an operation runs and prints UAF instead of using a reference into released
+storage (deterministic in every build, also when the stale value would "look
+right"); the model prints UAF when the block of a held reference is deleted.
+For every reported UAF the shrunk replay is run once more in the ASan build
+with VERIF_BA_RAW=1 (the access really performed) and AddressSanitizer's
+heap-use-after-free report is attached to the violation.
 The Coq specification of std::vector (vec_step) is itself run against the real
 std::vector; a difference there is an error of the check (exit 2)."""
 import os, re, json, time, random, collections
@@ -168,7 +180,45 @@ def rand_hexstr(rng):
     return s
 
 
-def gen_ba_session(rng, nv, nops, opmix):
+def gen_held_op(rng, vals, v, emit):
+    """One operation that holds an element reference or data() pointer of variable v (non-empty) across
+    another operation on v.  Updates vals (the std::vector meaning).  Returns False when none applies."""
+    n = len(vals[v])
+    nv = len(vals)
+    pick = lambda: rng.choice([0, n - 1, rng.randrange(n)])
+    i, j = pick(), pick()
+    dead = [w for w in range(nv) if vals[w] is None]
+    live = [w for w in range(nv) if vals[w] is not None]
+    k = rng.random()
+    if k < 0.18:
+        x, y = rng.randrange(256), rng.randrange(256)
+        emit("held_set2", "SET2 %d %d %d %d %d", v, i, x, j, y); vals[v][i] = x; vals[v][j] = y
+    elif k < 0.34:
+        emit("held_swap", "SWAP %d %d %d", v, i, j); vals[v][i], vals[v][j] = vals[v][j], vals[v][i]
+    elif k < 0.50:
+        emit("held_get", "%s %d %d %d", rng.choice(["GETHELD", "GETHELDC"]), v, i, j)
+    elif k < 0.60:
+        if n < 2:
+            return False
+        emit("held_pop", "HELDPOP %d %d", v, rng.choice([0, n - 2, rng.randrange(n - 1)])); vals[v].pop()
+    elif k < 0.74:
+        if not dead:
+            return False
+        w = rng.choice(dead); val = rng.randrange(256)
+        emit("held_data_copy", "DATAHELDCOPY %d %d %d %d%s", v, w, i, val, rng.choice(["", " I"]))
+        vals[w] = list(vals[v]); vals[v][i] = val
+    elif k < 0.88:
+        w = v if rng.random() < 0.15 else rng.choice(live); val = rng.randrange(256)
+        emit("held_data_assign_self" if w == v else "held_data_assign", "DATAHELDASSIGN %d %d %d %d%s", v, w, i, val, rng.choice(["", " I"]))
+        vals[w] = list(vals[v]); vals[v][i] = val
+    else:
+        val = rng.randrange(256)
+        emit("held_cdata", "CDATAHELD %d %d %d %d%s", v, i, j, val, rng.choice(["", " I", " J"])); vals[v][j] = val
+    return True
+
+
+def gen_ba_session(rng, nv, nops, opmix, held=0.0):
+    """held: probability that an operation on a non-empty variable is a held-reference one."""
     vals = [None] * nv
     lines = ["BA RESET %d" % nv]
 
@@ -203,6 +253,9 @@ def gen_ba_session(rng, nv, nops, opmix):
                 vals[v] = py_decode(s) or []
             continue
         v = rng.choice(live)
+        if held and vals[v] and rng.random() < held:
+            if gen_held_op(rng, vals, v, emit):
+                continue
         if r < 0.17:
             emit("dtor", "DTOR %d", v); vals[v] = None
         elif r < 0.30:
@@ -264,6 +317,23 @@ def directed_ba():
     S["destroy-order"] = ["RESET 4", "CSIZE 0 33 3", "COPY 1 0", "COPY 2 1", "COPY 3 2", "DTOR 0", "DTOR 2", "PUSH 1 1", "DTOR 3", "DTOR 1", "CTOR 0", "PUSH 0 1"]
     S["reserve-then-index"] = ["RESET 2", "CSIZE 0 2 7", "RESERVE 0 100", "CAP 0", "SET 0 1 3", "CAP 0", "COPY 1 0", "RESERVE 1 10", "RESERVE 1 64", "CAP 1", "CAP 0"]
     S["push-across-capacity"] = ["RESET 2", "CTOR 0"] + ["PUSH 0 %d" % i for i in range(35)] + ["COPY 1 0"] + ["POP 1"] * 36 + ["EMPTY 1", "SIZE 0"]
+    # references / pointers held across other operations on the same object (Coq witnesses of Proofs/ByteArrayP.v first)
+    S["coq-witness-set2"] = ["RESET 1", "CSIZE 0 2 7", "SET2 0 0 1 1 2"]
+    S["coq-witness-swap"] = ["RESET 1", "CSIZE 0 2 7", "SET 0 1 9", "SWAP 0 0 1"]
+    S["coq-witness-get-held"] = ["RESET 1", "CSIZE 0 2 7", "GETHELD 0 0 1"]
+    S["coq-witness-get-held-c"] = ["RESET 1", "CSIZE 0 2 7", "GETHELDC 0 0 1"]
+    S["coq-witness-held-pop"] = ["RESET 1", "CSIZE 0 2 7", "HELDPOP 0 0"]
+    S["coq-witness-data-copy"] = ["RESET 2", "CSIZE 0 2 7", "DATAHELDCOPY 0 1 0 9"]
+    S["coq-witness-data-assign"] = ["RESET 2", "CSIZE 0 2 7", "CTOR 1", "DATAHELDASSIGN 0 1 0 9"]
+    S["coq-witness-cdata"] = ["RESET 2", "CSIZE 0 2 7", "COPY 1 0", "CDATAHELD 0 0 0 9"]
+    S["held-swap-two-elements"] = ["RESET 2", "CSIZE 0 4 7", "SET 0 1 9", "SET 0 3 5", "SWAP 0 1 3", "DATAC 0", "SWAP 0 0 0", "SET2 0 0 1 3 2", "SET2 0 2 4 2 6", "DATAC 0", "CAP 0"]
+    S["held-ref-across-subscript"] = ["RESET 2", "CSIZE 0 4 7", "SET 0 0 1", "SET 0 3 4", "GETHELD 0 0 3", "GETHELDC 0 3 0", "GETHELD 0 3 3", "HELDPOP 0 0", "HELDPOP 0 1", "DATAC 0", "PUSH 0 8", "GETHELDC 0 2 1"]
+    S["held-ref-on-shared-buffer"] = ["RESET 4", "CSIZE 0 4 7", "COPY 1 0", "SET2 0 0 1 1 2", "DATAC 1", "COPY 2 0", "SWAP 2 0 3", "DATAC 0", "GETHELD 1 0 1", "COPY 3 1", "GETHELDC 3 2 0", "HELDPOP 1 1", "DATAC 3", "HELDPOP 2 0", "DATAC 0"]
+    S["held-data-across-copy"] = ["RESET 4", "CSIZE 0 3 7", "DATAHELDCOPY 0 1 0 9", "DATAC 0", "DATAC 1", "DATAHELDCOPY 0 2 1 8 I", "DATAC 2", "SET 1 2 1", "DATAHELDCOPY 1 3 2 6", "DATAC 3", "EQ 0 2"]
+    S["held-data-across-assign"] = ["RESET 3", "CSIZE 0 3 7", "CTOR 1", "DATAHELDASSIGN 0 1 0 9", "DATAC 1", "CSIZE 2 5 1", "DATAHELDASSIGN 0 2 1 8 I", "DATAC 2", "DATAHELDASSIGN 0 0 2 6", "DATAC 0", "DATAHELDASSIGN 2 1 0 3", "DATAC 1"]
+    S["held-data-on-shared-buffer"] = ["RESET 4", "CSIZE 0 3 7", "COPY 1 0", "DATAHELDCOPY 0 2 0 9", "DATAC 1", "DATAC 2", "DATAHELDASSIGN 1 0 1 8", "DATAC 0", "DATAC 2", "COPY 3 1", "DATAHELDASSIGN 3 1 2 5 I", "DATAC 1"]
+    S["held-const-pointer-on-shared-buffer"] = ["RESET 3", "CSIZE 0 3 7", "COPY 1 0", "CDATAHELD 0 0 0 9", "DATAC 1", "COPY 2 0", "CDATAHELD 2 1 1 8 I", "CDATAHELD 0 2 1 6 J", "CDATAHELD 1 0 2 5", "DATAC 0", "DATAC 1", "DATAC 2"]
+    S["held-then-copy-later"] = ["RESET 3", "CSIZE 0 3 7", "DATA 0", "COPY 1 0", "SET 0 0 1", "DATAC 1", "GET 1 0", "COPY 2 1", "DATASET 2 1 4", "DATAC 1", "DTOR 0", "FROMHEX 0 30312032", "DATAC 0"]
     S["empty-pop-clear"] = ["RESET 2", "CTOR 0", "POP 0", "CLEAR 0", "CSIZE 1 0 0", "POP 1", "CLEAR 1", "EQ 0 1", "PUSH 1 0", "POP 1", "POP 1"]
     return [(name, ["BA " + l for l in ls]) for name, ls in S.items()]
 
@@ -279,6 +349,10 @@ def ba_sig(line):
         o = "FROMHEX"
     if o in ("CSIZE1",):
         o = "CSIZE"
+    if o in ("SET2", "SWAP", "GETHELD", "GETHELDC", "HELDPOP"):
+        o = "HELDREF"       # an element reference held across operator[] / pop_back
+    if o in ("DATAHELDCOPY", "DATAHELDASSIGN", "CDATAHELD"):
+        o = "HELDPTR"       # a data()/begin() pointer held across a copy of / a write to the array
     return "BA-" + o
 
 
@@ -298,8 +372,8 @@ def proj_line(op_line, out):
         if s == "N":
             toks.append(k + "=V/0/-")
         elif s.startswith("P"):
-            parts = s.split("/")
-            toks.append("%s=V/%s/%s" % (k, parts[2], parts[4]) if len(parts) == 5 else tok)
+            parts = s.split("/")       # P<c>/<ref>/<size>/<capacity>/<bytes>[/L]
+            toks.append("%s=V/%s/%s" % (k, parts[2], parts[4]) if len(parts) in (5, 6) else tok)
         else:
             toks.append(tok)
     return res + " | " + " ".join(toks)
@@ -350,11 +424,15 @@ class Judge:
         self.tie_checked = 0
         self.disagreements = 0
 
-    def session(self, kind, config, ops, impl, fixed, sel, sigfn, vec=None, projfn=None, shrink=None):
-        """ops/impl/fixed/sel(/vec): the lines of one session.  Returns True when everything agreed."""
+    def session(self, kind, config, ops, impl, fixed, sel, sigfn, vec=None, projfn=None, shrink=None, others=None, confirm=None):
+        """ops/impl/fixed/sel(/vec): the lines of one session.  Returns True when everything agreed.
+        projfn: compare with the proved model on projfn(op, line) (results and values) instead of complete lines.
+        others: {name: lines} of further models; the selected model is merely stale where the code equals one of them.
+        confirm(cut_ops, impl_line) -> (text, dict) or None: extra evidence for a violation."""
         n = len(ops)
         self.tie_checked += n
-        first_fix = next((i for i in range(n) if impl[i] != fixed[i]), None)
+        pj = (lambda i, l: projfn(ops[i], l)) if projfn else (lambda i, l: l)
+        first_fix = next((i for i in range(n) if pj(i, impl[i]) != pj(i, fixed[i])), None)
         first_vec = None
         if vec is not None:
             first_vec = next((i for i in range(n) if projfn(ops[i], impl[i]) != vec[i]), None)
@@ -384,17 +462,22 @@ class Judge:
             desc = ("%s (%s): the implementation departs from %s at: %s\n impl:   %s\n proved: %s%s" %
                     (kind, config, " and from ".join(against), shown, impl[i][:300], fixed[i][:300],
                      ("\n vector: %s" % vec[i][:300]) if vec is not None else ""))
-            self.res.violation(sig, desc, {"kind": kind, "config": config, "ops": cut,
+            extra = confirm(cut, impl[i]) if confirm else None
+            if extra:
+                desc += "\n " + extra[0]
+            self.res.violation(sig, desc, {"kind": kind, "config": config, "ops": cut, "confirmation": (extra[1] if extra else None),
                                            "impl": impl[:i + 1][-6:], "proved_model": fixed[:i + 1][-6:],
                                            "std_vector": (vec[:i + 1][-6:] if vec is not None else None),
                                            "how": "./check C20 --replay <this file>  (runs `ops` through the harness built from the working tree, the extracted models and std::vector)"})
         if first_sel is not None:
             i = first_sel
-            if first_fix is None or first_fix > i:
-                # the code is right here (equals the proved model) but the selected model says otherwise: stale flag
-                self.stale[sigfn(ops[i])] += 1
-            elif first_fix is not None and first_fix < i:
+            first_viol = min([x for x in (first_fix, first_vec) if x is not None], default=None)
+            eq_other = [nm for nm, ls in (others or {}).items() if ls[i] == impl[i]]
+            if first_viol is not None and first_viol < i:
                 pass        # already reported: the states have diverged before
+            elif impl[i] == fixed[i] or eq_other:
+                # the code equals a more-fixed model here while the selected model says otherwise: stale flag
+                self.stale[sigfn(ops[i]) + ("" if impl[i] == fixed[i] else "=" + eq_other[0])] += 1
             elif impl[i] != fixed[i] and sel[i] != fixed[i]:
                 # differs from both models at the same line: the model of the pinned code does not describe the code either
                 self.res.violation("model-mismatch-" + sigfn(ops[i]) + "@" + config,
@@ -413,7 +496,7 @@ def make_shrinker(exe, driver, env):
         rc3, vec, err3 = common.run_lines(exe, ops, env=dict(env or {}, VERIF_BA_MODE="vec"), timeout=120)
         for i in range(len(ops)):
             a = impl[i] if i < len(impl) else "<none>"
-            if a != (fixed[i] if i < len(fixed) else "") or proj_line(ops[i], a) != (vec[i] if i < len(vec) else ""):
+            if proj_line(ops[i], a) != proj_line(ops[i], fixed[i] if i < len(fixed) else "") or proj_line(ops[i], a) != (vec[i] if i < len(vec) else ""):
                 return ba_sig(ops[i]) == want and i == len(ops) - 1
         return False
 
@@ -511,7 +594,10 @@ def run(res, tier, seed, replay=None):
         nses, nops = (500, 60) if tier == "quick" else (4000, 120)
         for k in range(nses):
             nv = rng.choice([4, 4, 4, 5, 6, 8])
-            ba_sessions.append(("random", gen_ba_session(rng, nv, rng.choice([12, 30, nops]), opmix)))
+            # one session in three mixes held-reference operations into the operation mix; the others keep
+            # the plain mix, so that an open held-reference finding does not cut every session short
+            held = rng.choice([0.08, 0.15, 0.3]) if k % 3 == 2 else 0.0
+            ba_sessions.append(("random-held" if held else "random", gen_ba_session(rng, nv, rng.choice([12, 30, nops]), opmix, held)))
 
     per = []
     with common.Scratch() as sc:
@@ -561,7 +647,13 @@ def run(res, tier, seed, replay=None):
             m_sel = run_model(driver, lines, sessions, "selected")
             m_fix = run_model(driver, lines, sessions, "fixed")
             m_vec = run_model(driver, lines, sessions, "vec")
+            others = {}
+            if not flags.get("fix_ba_index"):      # otherwise the selected model is the fixed-index or the fixed one
+                others["fixed-index"] = run_model(driver, lines, sessions, "fixedindex")
             shared_sessions = 0
+            uaf_seen = collections.Counter()
+            directed_outcome = collections.OrderedDict()
+            held_lines = sum(1 for l in lines if ba_sig(l) in ("BA-HELDREF", "BA-HELDPTR"))
             for san in (False, True):
                 got = build_xba(res, sc, san)
                 if not got:
@@ -576,6 +668,37 @@ def run(res, tier, seed, replay=None):
                             raise common.Infra("coq vec_step disagrees with std::vector on `%s` (session %s): coq %s / std::vector %s - the specification in Model/ByteArraym.v or the harness is wrong" %
                                                (lines[i], names[sessions.index((a, bnd))], m_vec[i], vec[i]))
                 shrink = make_shrinker(exe, driver, None)
+
+                def confirm(cut, impl_line, exe=exe, san=san, tag=tag):
+                    """A reported UAF: perform the access for real under AddressSanitizer and quote its report."""
+                    if not impl_line.startswith("UAF"):
+                        return None
+                    uaf_seen[tag] += 1
+                    if not san:
+                        return ("(the harness found the held reference pointing into storage released by the operation; "
+                                "see the nostl-san signature for AddressSanitizer's report of the real access)", {"raw_access": "not run in this build"})
+                    try:
+                        rc_r, out_r, err_r = common.run_lines(exe, cut, env={"VERIF_BA_RAW": "1"}, timeout=120)
+                    except Exception as e:      # noqa
+                        return ("raw run failed: %s" % e, {"raw_access": "failed"})
+                    m = re.search(r"ERROR: AddressSanitizer: (\S+) on address.*?\n((?:.*\n){0,40})", err_r)
+                    if not m:
+                        return ("raw access under ASan (VERIF_BA_RAW=1): no report, exit status %d" % rc_r, {"raw_access": "no report", "rc": rc_r})
+                    frames, depth = [], 0
+                    for l in m.group(2).split("\n"):
+                        l = re.sub(r"\s+", " ", l.strip())
+                        l = re.sub(r"std::vector<std::__cxx11::basic_string<.*?> > > const&", "Toks const&", l)
+                        if re.match(r"(READ|WRITE|freed by|previously allocated)", l):
+                            depth = 0; frames.append(l)
+                        elif re.match(r"#\d+ ", l):
+                            depth += 1
+                            if depth <= 6:
+                                frames.append("  " + re.sub(r"^(#\d+) 0x[0-9a-f]+ ", r"\1 ", l))
+                        if l.startswith("previously allocated"):
+                            break
+                    return ("the same operations with the access really performed (VERIF_BA_RAW=1, ASan build): AddressSanitizer: %s\n   %s" %
+                            (m.group(1), "\n   ".join(frames)),
+                            {"raw_access": "AddressSanitizer: " + m.group(1), "asan_report": (m.group(0))[:3000], "exit_status": rc_r})
                 nbad, seen = 0, set()
                 distinct, shared = set(), 0
                 for k, (a, bnd) in enumerate(sessions):
@@ -586,12 +709,17 @@ def run(res, tier, seed, replay=None):
                         if any(re.search(r"=P\d+/([2-9]|\d\d+)/", o) for o in impl[a:bnd]):
                             shared += 1
                     # shrink only the first failing session of each signature (cheap enough), report the others unshrunk
-                    fi = next((i for i in range(a, bnd) if impl[i] != m_fix[i] or proj_line(lines[i], impl[i]) != vec[i]), None)
+                    fi = next((i for i in range(a, bnd) if proj_line(lines[i], impl[i]) != proj_line(lines[i], m_fix[i]) or proj_line(lines[i], impl[i]) != vec[i]), None)
+                    if not san and (names[k].startswith("held-") or names[k].startswith("coq-witness-")):
+                        directed_outcome[names[k]] = ("agrees with std::vector on all %d operations" % (bnd - a)) if fi is None else \
+                            ("first departure at `%s`: implementation %s / std::vector %s" % (lines[fi], impl[fi].split(" | ")[0] + " | " + proj_line(lines[fi], impl[fi]).split(" | ")[-1], vec[fi]))
                     do_shrink = None
                     if fi is not None and ba_sig(lines[fi]) not in seen and names[k] != "replay":
                         seen.add(ba_sig(lines[fi])); do_shrink = shrink
                     if not judge.session("byte_array", tag, ops, impl[a:bnd], m_fix[a:bnd], m_sel[a:bnd], ba_sig,
-                                         vec=vec[a:bnd], projfn=proj_line, shrink=do_shrink):
+                                         vec=vec[a:bnd], projfn=proj_line, shrink=do_shrink,
+                                         others=dict((nm, ls[a:bnd]) for nm, ls in others.items()),
+                                         confirm=(confirm if do_shrink is not None or names[k] == "replay" else None)):
                         nbad += 1
                 if (rc != 0 or "LEAK" in " ".join(impl[-3:]) or "Sanitizer" in err) and nbad == 0:
                     res.violation("harness-crash@" + tag, "x_bytearray exited abnormally / leaked / sanitizer report (%s): %s" % (tag, err[-1500:]),
@@ -599,13 +727,19 @@ def run(res, tier, seed, replay=None):
                 shared_sessions = max(shared_sessions, shared)
                 per.append({"part": "byte_array", "config": tag, "sessions": len(sessions), "distinct_sessions": len(distinct), "operations": len(lines),
                             "sessions_with_a_block_shared_by_2+_variables": shared, "sessions_differing_from_proved_model_or_vector": nbad,
+                            "held_reference_operations": held_lines,
+                            "UAF_results_from_the_implementation": sum(1 for o in impl if o.startswith("UAF")),
                             "sanitizer_reports": 1 if "Sanitizer" in err else 0})
             res.cov["ba_distinct_sessions_with_sharing"] = shared_sessions
+            res.cov["ba_uaf_violations_confirmed_raw"] = dict(uaf_seen)
+            res.cov["ba_directed_sessions_outcome"] = directed_outcome
 
     # ---------------- stale flags (code already fixed, model flags not switched)
     if judge.stale:
         msg = ("NOTE: property=C20 the selected model (coq/Model/C20Config.v: %s) describes unfixed code, but the code under test equals the FIXED model on %s; "
-               "set the corresponding flag(s) to true and install Props/Properties_C20.v.fixed" % (flags, dict(judge.stale)))
+               "set the corresponding flag(s) to true and install the matching Props/Properties_C20.v.<variant> "
+               "(byte_array held references: tools/c20-variant.sh fixed-index | fixed; a signature ending in =fixed-index means the code equals the model "
+               "with fixes/C20-subscript-detach.patch only)" % (flags, dict(judge.stale)))
         print(msg)
         res.notes.append(msg)
 
@@ -626,14 +760,21 @@ def run(res, tier, seed, replay=None):
         "stale_model_flags": dict(judge.stale),
         "input_distribution": {"hex_kinds": dict(hex_stats), "hex_input_length": diffrun.histogram(list(hex_lens.elements())),
                                "byte_array_op_mix": dict(opmix), "byte_array_sessions": len(ba_sessions),
-                               "byte_array_directed_sessions": [n for (n, _) in ba_sessions if n not in ("random", "replay")]},
-        "coq_witnesses_replayed": ["coq-witness-resize", "coq-witness-cmp", "fromhex-ws (HEXCPP 'ab  ')"],
+                               "byte_array_random_sessions_with_held_reference_operations": sum(1 for (n, _) in ba_sessions if n == "random-held"),
+                               "byte_array_directed_sessions": [n for (n, _) in ba_sessions if n not in ("random", "random-held", "replay")]},
+        "coq_witnesses_replayed": ["coq-witness-resize", "coq-witness-cmp", "fromhex-ws (HEXCPP 'ab  ')", "coq-witness-set2", "coq-witness-swap",
+                                   "coq-witness-get-held", "coq-witness-get-held-c", "coq-witness-held-pop", "coq-witness-data-copy",
+                                   "coq-witness-data-assign", "coq-witness-cdata"],
     })
     res.assumptions += [
         "Model/Hexm.v and Model/ByteArraym.v mirror the C/C++ source only as far as the differential run shows (state dumps include ref counts, capacities, alias classes and the number of live private blocks)",
         "Spec/Hex.v (digits + six white-space characters, pairs most-significant-nibble first) and vec_step (std::vector value semantics) are the reading of the property; vec_step is run against libstdc++'s std::vector on every run",
         "lengths below 2^31 (int return values, size_t arithmetic does not wrap); characters are compared as their unsigned byte value (all tested constants are ASCII)",
         "operator new does not fail; capacity() and the identity of blocks are not part of std::vector's value semantics (compared with the model only)",
+        "held references: one reference or pointer held across ONE further operation on the same object (two subscripts, subscript + pop_back, data() + copy/assignment, const data() + subscript write), "
+        "as compound operations; references held across arbitrary longer sequences (and across push_back/resize/reserve within a reserved capacity) are not modelled",
+        "a dangling reference is detected by the harness as 'points into storage released since the operation began' (operator delete is replaced and keeps the storage aside); "
+        "the real access is performed only in the ASan confirmation run of a reported replay",
     ]
     res.cov["wall_total"] = round(time.time() - t0, 1)
     return "proof"
